@@ -28,19 +28,20 @@ KEYWORDS = {
     "ROLLBACK", "SAVEPOINT", "RELEASE", "DROP", "ALTER", "INDEX", "IF",
     "TEMP", "TEMPORARY", "CONSTRAINT", "NATURAL", "OFFSET", "TRANSACTION",
     "VACUUM", "ATTACH", "DETACH", "REINDEX", "ANALYZE", "TRIGGER", "RETURNING",
+    "EXCEPT", "INTERSECT", "GLOB", "COLLATE", "ISNULL", "NOTNULL",
 }
 
 _tok_re = re.compile(
     r"""
-    (?P<ws>\s+|--[^\n]*)
+    (?P<ws>\s+|--[^\n]*|/\*.*?\*/)
   | (?P<num>(?:\d+\.\d*|\.\d+|\d+)(?:[eE][+-]?\d+)?)
   | (?P<str>'(?:[^']|'')*')
-  | (?P<qid>"(?:[^"]|"")*")
+  | (?P<qid>"(?:[^"]|"")*"|\[[^\]]*\]|`[^`]*`)
   | (?P<param>\?\d*|:[A-Za-z_][A-Za-z_0-9]*)
   | (?P<id>[A-Za-z_][A-Za-z_0-9]*)
   | (?P<op><=|>=|<>|!=|==|\|\||[-+*/%<>=(),.;])
     """,
-    re.X,
+    re.X | re.S,
 )
 
 
@@ -94,6 +95,7 @@ class Source:
         self.join = None  # None | 'INNER' | 'LEFT' | 'CROSS'
         self.on = None
         self.using = None
+        self.natural = False
 
 
 class Insert:
@@ -520,12 +522,23 @@ class Parser:
                     self.accept_kw("OUTER")
                     self.expect_kw("JOIN")
                     jk = "LEFT"
-                elif self.at_kw("NATURAL"):
-                    self.fail("NATURAL JOIN not modelled")
+                natural = False
+                if self.at_kw("NATURAL"):
+                    # NATURAL [INNER|LEFT] JOIN: joined on all common column names (resolved by the consumer, if it can)
+                    self.take()
+                    natural = True
+                    if self.accept_kw("LEFT"):
+                        self.accept_kw("OUTER")
+                        jk = "LEFT"
+                    else:
+                        self.accept_kw("INNER")
+                        jk = "INNER"
+                    self.expect_kw("JOIN")
                 if jk is None:
                     break
                 src = self.source()
                 src.join = jk
+                src.natural = natural
                 if self.accept_kw("ON"):
                     src.on = self.expr()
                 elif self.accept_kw("USING"):
@@ -541,9 +554,9 @@ class Parser:
                 s.group_by.append(self.expr())
             if self.accept_kw("HAVING"):
                 s.having = self.expr()
-        while self.at_kw("UNION"):
-            self.take()
-            op = "UNION ALL" if self.accept_kw("ALL") else "UNION"
+        while self.at_kw("UNION", "EXCEPT", "INTERSECT"):
+            kw = self.take()[1]
+            op = "UNION ALL" if kw == "UNION" and self.accept_kw("ALL") else kw
             sub = self.select_core_only()
             s.compound.append((op, sub))
         if self.at_kw("ORDER"):
@@ -578,6 +591,9 @@ class Parser:
                 alias = self.take()[1]
             return Source(None, alias, subq=sub)
         name = self.ident()
+        if self.at_op(".") and name.lower() in ("main", "temp"):
+            self.take()
+            name = self.ident()
         alias = None
         if self.accept_kw("AS"):
             alias = self.ident()
@@ -605,6 +621,14 @@ class Parser:
             while self.accept_op(","):
                 ins.values.append(self.expr())
             self.expect_op(")")
+            ins.more_rows = []
+            while self.accept_op(","):
+                self.expect_op("(")
+                row = [self.expr()]
+                while self.accept_op(","):
+                    row.append(self.expr())
+                self.expect_op(")")
+                ins.more_rows.append(row)
         elif self.accept_kw("DEFAULT"):
             self.expect_kw("VALUES")
             ins.values = []
@@ -681,6 +705,8 @@ class Parser:
                 self.expect_op("(")
                 if self.at_kw("SELECT", "WITH"):
                     items = [("subq", self.select())]
+                elif self.at_op(")"):
+                    items = []
                 else:
                     items = [self.expr()]
                     while self.accept_op(","):
@@ -689,15 +715,33 @@ class Parser:
                 e = ("inlist", e, items)
                 if neg:
                     e = ("un", "NOT", e)
-            elif self.at_kw("BETWEEN"):
+            elif self.at_kw("BETWEEN") or (self.at_kw("NOT") and self.peek(1) == ("kw", "BETWEEN")):
+                neg = bool(self.accept_kw("NOT"))
                 self.take()
                 lo = self.add()
                 self.expect_kw("AND")
                 hi = self.add()
                 e = ("bin", "AND", ("bin", ">=", e, lo), ("bin", "<=", e, hi))
-            elif self.at_kw("LIKE"):
+                if neg:
+                    e = ("un", "NOT", e)
+            elif self.at_kw("LIKE", "GLOB") or (self.at_kw("NOT") and self.peek(1) in (("kw", "LIKE"), ("kw", "GLOB"))):
+                neg = bool(self.accept_kw("NOT"))
+                kw = self.take()[1]
+                e = ("bin", kw, e, self.add())
+                if neg:
+                    e = ("un", "NOT", e)
+            elif self.at_kw("ISNULL"):
                 self.take()
-                e = ("bin", "LIKE", e, self.add())
+                e = ("bin", "IS", e, ("null",))
+            elif self.at_kw("NOTNULL") or (self.at_kw("NOT") and self.peek(1) == ("kw", "NULL")):
+                if self.accept_kw("NOT"):
+                    self.take()
+                else:
+                    self.take()
+                e = ("bin", "ISNOT", e, ("null",))
+            elif self.at_kw("COLLATE"):
+                self.take()
+                self.take()
             else:
                 return e
 
@@ -761,7 +805,20 @@ class Parser:
             self.expect_op(")")
             return ("cast", e, " ".join(ty).lower())
         if t == ("kw", "CASE"):
-            self.fail("CASE not modelled")
+            self.take()
+            operand = None
+            if not self.at_kw("WHEN"):
+                operand = self.expr()
+            whens = []
+            while self.accept_kw("WHEN"):
+                w = self.expr()
+                self.expect_kw("THEN")
+                whens.append((w, self.expr()))
+            els = None
+            if self.accept_kw("ELSE"):
+                els = self.expr()
+            self.expect_kw("END")
+            return ("call", "CASE", ([operand] if operand is not None else []) + [x for w in whens for x in w] + ([els] if els is not None else []), False)
         if t == ("op", "("):
             self.take()
             if self.at_kw("SELECT", "WITH"):
@@ -769,9 +826,15 @@ class Parser:
                 self.expect_op(")")
                 return ("subq", s)
             e = self.expr()
+            if self.at_op(","):
+                items = [e]
+                while self.accept_op(","):
+                    items.append(self.expr())
+                self.expect_op(")")
+                return ("call", "ROW", items, False)
             self.expect_op(")")
             return e
-        if t[0] == "id" or (t[0] == "kw" and t[1] in ("REPLACE",)):
+        if t[0] == "id" or (t[0] == "kw" and t[1] in ("REPLACE", "GLOB")):
             name = self.take()[1]
             if self.at_op("("):
                 self.take()
